@@ -452,7 +452,7 @@ type shape struct {
 // configs lists what each tier explores (every shape once per transport).
 func configs(thorough bool) []Cfg {
 	shapes := []shape{
-		{"rmw|-", 2, 0, false}, {"rmw|-", 2, 1, false}, {"rmw|-", 2, 2, false},
+		{"rmw|-", 2, 0, false}, {"rmw|-", 2, 1, false}, {"rmw|-", 1, 2, false},
 		{"rmw|rmw", 2, 0, false}, {"rmw|rmw", 2, 1, false},
 		{"blind|rmw", 2, 0, false}, {"blind|rmw", 2, 1, false},
 		{"rmw+rmw|rmw", 2, 0, false},
